@@ -138,7 +138,18 @@ fn deserialize<'a>(ty: &OwnedDataModelType, data: &'a [u8]) -> Result<(Value, &'
             let val = Value::Number(Number::from_f64(f).right()?);
             Ok((val, rest))
         }
-        OwnedDataModelType::Char => todo!(),
+        OwnedDataModelType::Char => {
+            // a char is encoded as a string holding exactly one scalar value
+            let (val, rest) = try_take_varint_usize(data)?;
+            let (bytes, rest) = rest.take_n(val)?;
+            let s = from_utf8(bytes).map_err(|_| Error::SchemaMismatch)?;
+            let mut chars = s.chars();
+            if chars.next().is_none() || chars.next().is_some() {
+                return Err(Error::SchemaMismatch);
+            }
+            let val = Value::String(s.to_string());
+            Ok((val, rest))
+        }
         OwnedDataModelType::String => {
             let (val, rest) = try_take_varint_usize(data)?;
             let (bytes, rest) = rest.take_n(val)?;
